@@ -776,6 +776,77 @@ def leave_or_bulk_run(run, rng, mode, idx, variant):
             pc.safe_disconnect(conn)
 
 
+def listener_fails_after_send_case(run, rng, mode, idx):
+    """An ordinary outgoing listener (it runs after the frame is on the wire)
+    raises an ordinary exception for one packet of a queue; the user's
+    exception handler ends the session with a flushing disconnect().  Every
+    queued packet reaches the server at most once, in queue order - the one
+    whose listener failed has been sent and is not sent again."""
+    from minecraft.networking.packets import serverbound
+    state = {'threshold': 16}
+    server = mcserver.Server(server_handler(mode, state))
+    log = pc.EventLog()
+    rec = pc.Recorder(log)
+    conn = None
+    n = rng.randrange(3, 9)
+    msgs = ['lf%d.%d' % (idx, i) for i in range(n)]
+    bad_at = rng.randrange(n)
+    w = {'mode': mode, 'scenario': 'listener-fails-after-send', 'idx': idx,
+         'queued': n, 'listener_fails_on': bad_at}
+    try:
+        K = pc.monitored_connection_class()
+        conn = K('127.0.0.1', server.port, username='vfuser',
+                 allowed_versions={PV}, handle_exception=rec.handle_exception,
+                 handle_exit=rec.handle_exit)
+        conn.vf_log = log
+        failed = []
+
+        def late(packet):
+            if packet.message == msgs[bad_at] and not failed:
+                failed.append(1)
+                raise ValueError('listener failed after the send')
+        conn.register_packet_listener(late, serverbound.play.ChatPacket,
+                                      outgoing=True)
+
+        def on_error(exc, exc_info):
+            # what a careful program does: say goodbye properly
+            conn.disconnect()
+        conn.register_exception_handler(on_error, ValueError)
+        conn.connect()
+        from minecraft.networking import connection as C
+        if not pc.wait_for(lambda: isinstance(conn.reactor, C.PlayingReactor)
+                           and state.get('in_play'), 10.0):
+            return 'never reached play state'
+        with conn._write_lock:
+            for m in msgs:
+                p = serverbound.play.ChatPacket()
+                p.message = m
+                conn.write_packet(p)
+        if not pc.wait_idle(conn, 15.0):
+            return 'watchdog: threads alive ' + pc.dump_threads()[-600:]
+        server.join(10.0)
+        got = [m for m in state.get('msgs', []) if m.startswith('lf')]
+        run.count('listener_fails_after_send.runs')
+        if not failed:
+            return 'the failing listener never ran'
+        dup = sorted({m for m in got if got.count(m) > 1})
+        order_ok = [m for m in msgs if m in got] == [
+            m for i, m in enumerate(got) if m not in got[:i]]
+        if dup or not order_ok or msgs[bad_at] not in got:
+            run.violation('wire/duplicate-after-listener-failure' if dup
+                          else 'wire/order-after-listener-failure',
+                          'an outgoing listener raised after its packet had '
+                          'been sent and the exception handler called a '
+                          'flushing disconnect(): the server did not see each '
+                          'queued packet at most once, in order',
+                          dict(w, got=got, duplicated=dup))
+        return None
+    finally:
+        server.stop()
+        if conn is not None:
+            pc.safe_disconnect(conn)
+
+
 def make_threads(rng, n_threads, n_ops, tag):
     threads = []
     for t in range(n_threads):
@@ -888,7 +959,21 @@ def run(run):
         run.case((variant, i, mode))
         if err:
             run.inconclusive_because('%s %d: %s' % (variant, i, err))
+    for i in range(60 if thorough else 8):
+        if not run.mine(i):
+            continue
+        mode = ('plain', 'compressed', 'encrypted')[i % 3]
+        err = None
+        for attempt in range(2):
+            err = listener_fails_after_send_case(run, rng, mode, i)
+            if err is None:
+                break
+        run.case(('listener-fails-after-send', i, mode))
+        if err:
+            run.inconclusive_because('listener fails after send %d: %s'
+                                     % (i, err))
     run.require('bulk.runs', 2)
+    run.require('listener_fails_after_send.runs', 2)
     run.require('stress.own_replies_checked', 5)
     run.require('leave.runs', 1)
     run.require('backpressure.runs', 2)
